@@ -132,7 +132,7 @@ pub broadcast axiom fn axiom_guard_resolved<'a, T: Component>(g: RemoveOnDrop<'a
 
 // element-wise form of "n is o with id mapped to v" (used where the final value is only known through a returned borrow)
 pub open spec fn map_inserted<T: Component>(o: &MaskedStorage<T>, n: &MaskedStorage<T>, id: Index, v: T) -> bool {
-    &&& n.mask@ == o.mask@.insert(id)
+    &&& n.mask@ =~= o.mask@.insert(id)
     &&& n.inner.val(id) == v
     &&& forall|j: Index| #![trigger n.inner.val(j)] j != id ==> n.inner.val(j) == o.inner.val(j)
 }
@@ -144,4 +144,10 @@ pub proof fn lemma_map_inserted<T: Component>(o: &MaskedStorage<T>, n: &MaskedSt
     assert forall|j: Index| n@.dom().contains(j) implies #[trigger] n@[j] == o@.insert(id, v)[j] by {
         if j != id { assert(n.inner.val(j) == o.inner.val(j)); }
     }
+}
+
+// `T: Default` as used by get_mut_or_default: the default value is a fixed value of the type
+pub trait DefaultSpec: Sized {
+    spec fn default_spec() -> Self;
+    fn default_exec() -> (r: Self) ensures r == Self::default_spec();
 }
